@@ -23,6 +23,7 @@ _orig_distance_loop = _J._distance_loop
 
 
 def _distance_loop_w(*a):
+    _GJK_INFO.setdefault("ys", set()).add((np.asarray(a[0], dtype=float) - np.asarray(a[1], dtype=float)).tobytes())
     r = _orig_distance_loop(*a)
     _GJK_INFO["n_points"] = None if r[1] is None else int(r[1])
     return r
@@ -160,8 +161,14 @@ def exec_op(op, c1, c2, cnt):
             out.update(ans=bool(r[0]), depth=None if r[1] is None else float(r[1]), dir=W.arr(r[2]), pos=W.arr(r[3]))
             scan(r, nonfinite)
         elif name == "epa_full":
+            _GJK_INFO["ys"] = set()
             d, a, b, simplex = gjk.gjk_distance_jolt(c1, c2)
             out.update(d=float(d), n_gjk=cnt.n, n_points=_GJK_INFO.get("n_points"))
+            if simplex is not None:
+                # rows of the returned work array that are NOT a difference p - q of support points this run obtained
+                # (uninitialised np.empty memory); stale-but-genuine rows are points of A - B
+                out["garbage_rows"] = int(sum(1 for row in np.asarray(simplex, dtype=float)
+                                              if np.ascontiguousarray(row).tobytes() not in _GJK_INFO["ys"]))
             if d < 1e-12 and simplex is not None:
                 mtv, faces, success = EPA.epa(simplex, c1, c2, **kw)
                 out.update(mtv=W.arr(mtv), success=bool(success))
